@@ -232,7 +232,7 @@ theorem step_wf (sp : Spec) (w : World) (ev : Event) :
               · exact Or.inl (checkAffected_tasks sp _ t).2
           · split
             · exact Or.inl rfl
-            · exact Or.inl rfl
+            · split <;> exact Or.inl rfl
       | rpcResult t ok =>
         simp only
         split
@@ -251,7 +251,7 @@ theorem step_wf (sp : Spec) (w : World) (ev : Event) :
               · split
                 · exact Or.inl rfl
                 · split
-                  · exact Or.inl rfl
+                  · split <;> exact Or.inl rfl
                   · split
                     · exact Or.inl (completeTask_wf sp _ _ _)
                     · exact Or.inl rfl
